@@ -246,8 +246,9 @@ def fam_lattice(props):
 
 def fam_anim_pairs():
   """two animation steps on one element: every combination of present / absent begin and end on each, same or different property"""
-  iv = [(None, None), (F(1), None), (None, F(2)), (F(1), F(2)), (F(3), None), (F(2), F(4))]
-  prod = Product([["region", "p", "span"], iv, iv, [0, 1], [0, 1]])
+  # (None, 0) and (0, 0): a step that ends at 0 is never active (an end of exactly 0 is not 'no end')
+  iv = [(None, None), (F(1), None), (None, F(2)), (F(1), F(2)), (F(3), None), (F(2), F(4)), (None, F(0)), (F(0), F(0))]
+  prod = Product([["region", "p", "span", "div"], iv, iv, [0, 1], [0, 1]])
 
   def dec(i):
     lv, (b1, e1), (b2, e2), same, with_end = prod.decode(i)
@@ -256,7 +257,7 @@ def fam_anim_pairs():
     if same:
       steps = [["Color", b1, e1, c1], ["Color", b2, e2, c2]]
     else:
-      p2 = "Opacity" if lv == "region" else "FontStyle"
+      p2 = "Opacity" if lv == "region" else "FontStyle"      # (the div begins at 0: an end of 0 is an absolute end of 0 there)
       steps = [["Color", b1, e1, c1], [p2, b2, e2, _three_values(p2)[1]]]
     nodes[lv]["an"] = steps
     if with_end and lv != "region":
